@@ -104,6 +104,16 @@ func (s *StrategyChoiceModule) set(interest *spec.Interest, pitToken []byte, inF
 		return
 	}
 
+	// A strategy is instantiated by the forwarding threads under exactly one name:
+	// <strategy prefix>/<strategy>/<version>. Anything after the version (strategy
+	// parameters) names an instance that does not exist.
+	if len(params.Strategy.Name) > len(s.strategyPrefix)+2 {
+		core.LogWarn(s, "Unknown Strategy=", params.Strategy.Name, " in ControlParameters for Interest=", interest.Name())
+		response = makeControlResponse(404, "Unknown strategy", nil)
+		s.manager.sendResponse(response, interest, pitToken, inFace)
+		return
+	}
+
 	strategyName := params.Strategy.Name[len(s.strategyPrefix)].String()
 	availableVersions, ok := fw.StrategyVersions[strategyName]
 	if !ok {
@@ -129,7 +139,7 @@ func (s *StrategyChoiceModule) set(interest *spec.Interest, pitToken []byte, inF
 		return
 	} else if len(params.Strategy.Name) > len(s.strategyPrefix)+1 {
 		strategyVersionBytes := params.Strategy.Name[len(s.strategyPrefix)+1].Val
-		strategyVersion, _, err := enc.ParseNat(strategyVersionBytes)
+		requestedVersion, _, err := enc.ParseNat(strategyVersionBytes)
 		if err != nil {
 			core.LogWarn(s, "Unknown Version=", params.Strategy.Name[len(s.strategyPrefix)+1],
 				" for Strategy=", params.Strategy, " in ControlParameters for Interest=", interest.Name())
@@ -139,21 +149,24 @@ func (s *StrategyChoiceModule) set(interest *spec.Interest, pitToken []byte, inF
 		}
 		foundMatchingVersion := false
 		for _, version := range availableVersions {
-			if version == uint64(strategyVersion) {
+			if version == uint64(requestedVersion) {
 				foundMatchingVersion = true
 			}
 		}
 		if !foundMatchingVersion {
-			core.LogWarn(s, "Unknown Version=", strategyVersion, " for Strategy=", params.Strategy,
+			core.LogWarn(s, "Unknown Version=", requestedVersion, " for Strategy=", params.Strategy,
 				" in ControlParameters for Interest=", interest.Name())
 			response = makeControlResponse(404, "Unknown strategy version", nil)
 			s.manager.sendResponse(response, interest, pitToken, inFace)
 			return
 		}
-	} else {
-		// Add missing version information to strategy name
-		params.Strategy.Name = append(params.Strategy.Name, enc.NewVersionComponent(strategyVersion))
+		strategyVersion = uint64(requestedVersion)
 	}
+
+	// Install the name the forwarding threads know the instance by (adds a missing
+	// version and replaces a version number that is not in its shortest encoding)
+	params.Strategy.Name = append(params.Strategy.Name[:len(s.strategyPrefix)+1:len(s.strategyPrefix)+1],
+		enc.NewVersionComponent(strategyVersion))
 	table.FibStrategyTable.SetStrategyEnc(params.Name, params.Strategy.Name)
 
 	core.LogInfo(s, "Set strategy for Name=", params.Name, " to Strategy=", params.Strategy)
